@@ -138,24 +138,51 @@ def r1_census(ctx, M):
     parser = RP.find_parser(ctx)[2][0]
     covered_inline = set()
     ordered = [f for f in fns if ctx.facts.bodies[f]["kind"] != "closure"] + [f for f in fns if ctx.facts.bodies[f]["kind"] == "closure"]
+    # pass 1: analyse every function once; remember which callees each analysis expanded in context
+    outs_of = {}
+    expanded_in = {}     # callee -> set of analysed functions that visited its sites in their own context
+    for fn in ordered:
+        b = ctx.facts.bodies[fn]
+        if b["kind"] == "promoted":
+            continue
+        if fn == spn:
+            outs = []
+            for label, p, cs in MP.stream_cases():
+                outs += MP.run_case(ctx, sadt, sroles, spn, p, cs)
+        elif fn == inner:
+            outs = M["outs"]
+        elif fn == parser:
+            outs = RP.analyse(ctx)["outs"]
+        else:
+            outs = ctx.px(fn)
+        outs_of[fn] = outs
+        for o in outs:
+            for ev in o.events:
+                if ev.get("fn") and ev["fn"] != fn:
+                    expanded_in.setdefault(ev["fn"], set()).add(fn)
+    # static callers (by resolved call edges) of every local function
+    callers = {}
+    for cb, ci, ct in ctx.facts.all_calls():
+        for k in ("res_path", "path"):
+            nm = ct["callee"].get(k)
+            if nm in ctx.facts.bodies:
+                callers.setdefault(nm, set()).add(cb["name"])
+                break
     for fn in ordered:
         b = ctx.facts.bodies[fn]
         if b["kind"] == "promoted":
             continue
         if fn == spn:
             continue  # analysed under its object invariant below
-        if b["kind"] == "closure" and fn in covered_inline:
+        if b["kind"] == "closure" and fn in expanded_in:
             continue  # its sites were visited in context (expanded at its unique call site by a combinator model)
-        if fn == inner:
-            outs = M["outs"]
-        elif fn == parser:
-            outs = RP.analyse(ctx)["outs"]
-        else:
-            outs = ctx.px(fn)
-        for o in outs:
-            for ev in o.events:
-                if ev.get("fn") and ev["fn"] != fn:
-                    covered_inline.add(ev["fn"])
+        cs = callers.get(fn, set())
+        if b["kind"] != "closure" and cs and cs <= set(outs_of) and all(c in expanded_in.get(fn, ()) for c in cs):
+            # a helper whose every call site was expanded inside its caller's analysis: its sites are censused there,
+            # under the caller's path conditions (and, for the multipart stream, under the object invariant)
+            ctx.ok("C13.R1", "%s: censused in context at its call sites in %s" % (fn, sorted(cs)), nontrivial=False)
+            continue
+        outs = outs_of[fn]
         sites = CEN.census(ctx, outs, typelevel=tl)
         for key, s in sorted(sites.items()):
             total += 1
